@@ -24,7 +24,9 @@ def check_retry(prop, tier, seed):
                    distinct_nontrivial=0, mc_runs=[], replay=[], exhaustive=False)
         mcs = [("2 writers, 1 key, up to 2 faults (certain error / unknown applied / unknown not applied, also on the repair write), 1 compaction request", dict(R_CONSTS))]
         if not quick:
-            mcs.append(("2 writers x 2 requests, up to 2 faults", dict(R_CONSTS, OpsPer=2, InitStates={"none", "live"}, ExpSet={0, 4}, Compactors=set(), MaxCompacts=0)))
+            # (2 writers x 2 requests with 2 faults has > 70 M states and does not finish in an hour; measured instead:
+            #  1 writer x 3 requests 1.7 M states / 22 s, 2 writers with 3 faults 1.0 M states / 37 s)
+            mcs.append(("1 writer x 3 requests, up to 2 faults", dict(R_CONSTS, Writers={"c1"}, OpsPer=3, InitStates={"none", "live"}, ExpSet={0, 1, 4, 5}, Compactors=set(), MaxCompacts=0)))
             mcs.append(("2 writers, up to 3 faults", dict(R_CONSTS, FaultBudget=3, InitStates={"live"})))
         for title, consts in mcs:
             r = run_mc(work, consts, MC_INV[prop])
